@@ -70,6 +70,45 @@ func (x *fx) resolve(name, group string) {
 	a.posts = append(a.posts, gtPost{at: x.now(), resolve: true})
 }
 
+// fireL / resolveL: alerts whose group is their own name (group_by [alertname]) with extra labels.
+func (x *fx) fireL(name string, extra map[string]string, end time.Duration) {
+	now := time.Now()
+	l := map[string]string{"alertname": name}
+	for k, v := range extra {
+		l[k] = v
+	}
+	if c, b := x.f.postAlerts(fPostAlert{Labels: l, EndsAt: rfc(now.Add(end))}); c != 200 {
+		x.err = &violation{"valid-alert-rejected", b}
+	}
+	a := x.alert(name, name)
+	a.posts = append(a.posts, gtPost{at: x.now(), end: x.now() + end})
+}
+
+func (x *fx) resolveL(name string, extra map[string]string) {
+	l := map[string]string{"alertname": name}
+	for k, v := range extra {
+		l[k] = v
+	}
+	if c, b := x.f.postAlerts(fPostAlert{Labels: l, EndsAt: rfc(time.Now())}); c != 200 {
+		x.err = &violation{"valid-alert-rejected", b}
+	}
+	a := x.alert(name, name)
+	a.posts = append(a.posts, gtPost{at: x.now(), resolve: true})
+}
+
+// refire posts again every alert that was firing before a restart (as Prometheus keeps doing).
+func (x *fx) refire() {
+	for name, a := range x.gt.alerts {
+		fired := false
+		for _, p := range a.posts[:len(a.posts)-1] {
+			fired = !p.resolve
+		}
+		if fired {
+			x.fire(name, a.group, time.Hour)
+		}
+	}
+}
+
 func (x *fx) silence(name string, on bool) bool {
 	if on {
 		if _, ok := x.sil[name]; ok {
@@ -150,6 +189,8 @@ type fScenario struct {
 	depthQ   int
 	depthT   int
 	rt       time.Duration
+	afterEvent func(x *fx) *violation
+	inhibit    map[string][]string
 }
 
 var fTmpRoot string
@@ -163,6 +204,7 @@ func (s *fScenario) run(t *testing.T, h []int) (res seqx.Result) {
 	synctest.Test(t, func(t *testing.T) {
 		env := newEnv(s.integs)
 		x := &fx{t: t, env: env, gt: newGT(s.rt), yaml: s.yaml, fo: s.fo, dir: dir, sil: map[string]string{}}
+		x.gt.inhibitedBy = s.inhibit
 		defer func() {
 			if r := recover(); r != nil {
 				res.Viol, res.Desc = "panic", fmt.Sprint(r)
@@ -188,6 +230,12 @@ func (s *fScenario) run(t *testing.T, h []int) (res seqx.Result) {
 			}
 			time.Sleep(time.Millisecond)
 			synctest.Wait()
+			if s.afterEvent != nil && x.err == nil {
+				x.err = s.afterEvent(x)
+				if x.err != nil {
+					break
+				}
+			}
 		}
 		if x.err == nil {
 			// closing tail: everything accepts, time passes
@@ -284,6 +332,7 @@ func stdMonitors(c monCfg) []func(x *fx, at []fAttempt) *violation {
 		func(x *fx, at []fAttempt) *violation { return monitorC04(x.gt, c, at, gk1) },
 		func(x *fx, at []fAttempt) *violation { return monitorC01(x.gt, c, at, gk1) },
 		func(x *fx, at []fAttempt) *violation { return monitorRetry(x.gt, c, at) },
+		func(x *fx, at []fAttempt) *violation { return monitorSuppressed(x.gt, at) },
 	}
 }
 
@@ -361,6 +410,86 @@ func TestVerifC05App(t *testing.T) {
 				return true
 			}},
 			evAdvance(3 * time.Second), evAdvance(10 * time.Second), evAdvance(30 * time.Second), evAdvance(61 * time.Second),
+		}}
+	s.explore(t)
+}
+
+// checkStatusAPI (C02 / C03): after an event the API reports every alert's suppression status as the ground truth has it.
+func (x *fx) checkStatusAPI() *violation {
+	t := x.now()
+	x.gt.horizon = t + time.Hour
+	_, al := x.f.getAlerts("")
+	for _, a := range al {
+		n := a.Labels["alertname"]
+		sil := x.gt.silenced(n).contains(t)
+		inh := x.gt.inhibited(n).contains(t)
+		want := "active"
+		if sil || inh {
+			want = "suppressed"
+		}
+		if a.Status.State != want || (len(a.Status.SilencedBy) > 0) != sil || (len(a.Status.InhibitedBy) > 0) != inh {
+			return &violation{"api-status-differs-from-suppression", fmt.Sprintf("at %v GET /alerts reports %s as %s silencedBy=%v inhibitedBy=%v; ground truth: silenced=%v inhibited=%v", t, n, a.Status.State, a.Status.SilencedBy, a.Status.InhibitedBy, sil, inh)}
+		}
+	}
+	return nil
+}
+
+const fYAMLInhibit = `global:
+  resolve_timeout: 1m
+route:
+  receiver: r1
+  group_by: [alertname]
+  group_wait: 10s
+  group_interval: 30s
+  repeat_interval: 2m
+inhibit_rules:
+- source_matchers: [ 'alertname="S"' ]
+  target_matchers: [ 'alertname=~"T|T2"' ]
+  equal: [g]
+receivers:
+- name: r1
+`
+
+func gkName(group string) string { return "" }
+
+func TestVerifC02App(t *testing.T) {
+	fInit(t)
+	c := fMon1()
+	s := &fScenario{prop: "C02", part: "app-silences", yaml: fYAML1, integs: fIntegs1, mon: c, fo: defaultFOpts(), rt: time.Minute,
+		tail: 2 * time.Minute, depthQ: 4, depthT: 5, monitors: stdMonitors(c), afterEvent: (*fx).checkStatusAPI,
+		events: []fEvent{
+			{"fire A1 (end+1h)", func(x *fx) bool { x.fire("A1", "1", time.Hour); return true }},
+			{"fire A2 (end+1h)", func(x *fx) bool { x.fire("A2", "1", time.Hour); return true }},
+			{"silence A1", func(x *fx) bool { return x.silence("A1", true) }},
+			{"expire silence A1", func(x *fx) bool { return x.silence("A1", false) }},
+			{"silence A2", func(x *fx) bool { return x.silence("A2", true) }},
+			{"restart (same data dir)", func(x *fx) bool { x.restart(); x.refire(); return true }},
+			evAdvance(9 * time.Second), evAdvance(10 * time.Second), evAdvance(31 * time.Second),
+		}}
+	s.explore(t)
+}
+
+func TestVerifC03App(t *testing.T) {
+	fInit(t)
+	c := fMon1()
+	gk := func(group string) string { return "" }
+	_ = gk
+	s := &fScenario{prop: "C03", part: "app-inhibition", yaml: fYAMLInhibit, integs: fIntegs1, mon: c, fo: defaultFOpts(), rt: time.Minute,
+		tail: 2 * time.Minute, depthQ: 4, depthT: 5, afterEvent: (*fx).checkStatusAPI,
+		monitors: []func(x *fx, at []fAttempt) *violation{
+			func(x *fx, at []fAttempt) *violation { return monitorSuppressed(x.gt, at) },
+			func(x *fx, at []fAttempt) *violation {
+				return monitorC01(x.gt, c, at, func(name string) string { return fmt.Sprintf("{}:{alertname=\"%s\"}", name) })
+			},
+		},
+		inhibit: map[string][]string{"T": {"S"}, "T2": {"S2x"}},
+		events: []fEvent{
+			{"fire S (g=1)", func(x *fx) bool { x.fireL("S", map[string]string{"g": "1"}, time.Hour); return true }},
+			{"fire T (g=1, target)", func(x *fx) bool { x.fireL("T", map[string]string{"g": "1"}, time.Hour); return true }},
+			{"fire T2 (g=2, target, no source with g=2)", func(x *fx) bool { x.fireL("T2", map[string]string{"g": "2"}, time.Hour); return true }},
+			{"resolve S", func(x *fx) bool { x.resolveL("S", map[string]string{"g": "1"}); return true }},
+			{"reload", func(x *fx) bool { x.reload(); return true }},
+			evAdvance(9 * time.Second), evAdvance(10 * time.Second), evAdvance(31 * time.Second), evAdvance(50 * time.Second),
 		}}
 	s.explore(t)
 }
